@@ -221,6 +221,28 @@ def handover_execute(variant, k):
         sc.close()
 
 
+def flood_models(n, last, a, b):
+    base_m = monitors.ScenarioModel(f"{n}-wake-ups-at-once", BASE, [("xn", a, "dwr", n, b, last), ("tick", 1), ("eof", b)], MONS, max_socks=2,
+                                    prelude=[("accept",), ("m", 0, "cer_p0"), ("accept",), ("m", 1, "cer_p1")])
+    return monitors.with_io_last([base_m])
+
+
+def flood_case(args):
+    n, last, a, b, io_last = args
+    m = flood_models(n, last, a, b)[1 if io_last else 0]
+    hist = (("xn", a, "dwr", n, b, last), ("tick", 1)) + ((("eof", b), ("tick", 1)) if last == "dpr" else ())
+    out = []
+    cnt = 0
+    for k in range(1, len(hist) + 1):
+        r = m.build(hist[:k])
+        cnt += 1
+        if r is None:
+            break
+        for key, d in r[1]:
+            out.append((key, f"[{m.name}] history {list(hist[:k])}: {d}", {"model": m.name, "history": [list(e) for e in hist[:k]], "flood": n}))
+    return cnt, out
+
+
 def run(tier):
     rep = Report("C13", tier, "model_checking")
     common.pool()
@@ -249,6 +271,15 @@ def run(tier):
     t2 = monitors.run_models(rep, [m for m in ms if m.name.startswith("many-wake-ups")], 4 if tier == "thorough" else 3, time_cap=300 if tier == "thorough" else 40)
     for k in tot:
         tot[k] = max(tot[k], t2[k]) if k == "max_depth" else tot[k] + t2[k]
+    # the same with 12 and with 700 answers to write (a wake-up pipe drained in reads of any fixed size must not lose the request of the
+    # connection that has to be closed): fixed histories, both scheduling policies
+    nflood = 0
+    jobs = [(n, last, a, b, pol) for n in (12, 700) for last in ("badlen", "dpr") for a, b in ((0, 1), (1, 0)) for pol in (False, True)]
+    for cnt, vsf in common.pmap(flood_case, jobs, chunksize=1):
+        nflood += cnt
+        for key, detail, case in vsf:
+            rep.add(Violation(key, detail, case))
+    rep.cov["many_wake_ups_fixed_histories"] = nflood
     rep.cov.update({"states": tot["states"], "transitions": tot["transitions"], "traces_validated_against_impl": tot["transitions"] + tot["plain_transitions"],
                     "max_depth": tot["max_depth"], "states_without_dedup": tot["plain_states"],
                     "explanation": "BFS over histories of accepts, dial outcomes, CER/CEA outcomes (incl. a second connection of a connected peer), DPR, "
@@ -268,6 +299,16 @@ def replay(case):
         obs_vs, ch = scheddfs.replay_choices(functools.partial(sched_execute, case["sched"]), case["choices"])
         return [Violation(k, d) for k, d in sched_check(obs_vs)]
     hist = tuple(tuple(e) for e in case["history"])
+    if "flood" in case:
+        h0 = hist[0]
+        out = []
+        for m in flood_models(case["flood"], h0[5], h0[1], h0[4]):
+            if m.name == case["model"]:
+                for k in range(1, len(hist) + 1):
+                    r = m.build(hist[:k])
+                    if r is not None:
+                        out += [Violation(key, d) for key, d in r[1]]
+        return out
     for m in models("thorough"):
         if m.name == case["model"]:
             out = []
